@@ -12,7 +12,11 @@ From BB Require Import BN Brute SpaceFacts TrapFacts PercolateFacts AttractorFac
   Strict PetriNet Control Meta FilterFacts PetriNetFacts TrappistFacts DiagramStruct DiagramSem1 DiagramCache
   DiagramDepth DiagramComplete Termination ControlFacts MetaFacts Candidates StrictFacts MinExpandFacts CandidatesFacts SymbolicTest SymbolicTestFacts Signed ReductionFacts ControlFacts2 Main Blocks BlocksFacts ObsFacts OwnerFacts CandidatesTerm
   PartialOwner BlockMath BlockComplete ASeeds ASeedsFacts LogChecks SkipRule SkipRuleFacts Names NamesFacts Perm PermFacts SCC SCCFacts SCCStruct ControlFacts3 SCCTerm FilterSym Main2 StrategyFacts ControlFacts4 SkipRuleFacts2 SCCComplete SCCAttr BlockComplete2 ControlFacts5 Iso SkipSem ControlFacts6.
-From BB Require Import PyLibCore PySrcCore PySrcCoreFacts.
+From BB Require Import PyLibCore PySrcCore PySrcCoreFacts PyLibCore2 PySrcCore2 PySrcCore2Facts.
+
+(* translator tie: reclaim_node_data as generated from the source = Diagram.reclaim *)
+Theorem C14_source_reclaim_node_data : forall (fuel : nat) (N0 : net) (cfg : config) (pnc : nat -> bool) (w : pyst), exists w' : pyst, py_reclaim_node_data fuel N0 cfg pnc w = CNext w' Datatypes.tt /\ p_sd w' = reclaim (p_sd w) /\ p_idx w' = p_idx w.
+Proof. exact py_reclaim_node_data_spec. Qed.
 
 (* translator tie: the function GENERATED from the current text of SuccessionDiagram._expand_one_node (PySrcCore.v; embedding PyLibCore.v) computes Diagram.expand_one for every diagram satisfying the class invariant CoreInv, every oracle for the percolated-net cache, and preserves CoreInv *)
 Theorem C14_source_expand_one_node : forall (fuel : nat) (N : net) (cfg : config) (pnc : nat -> bool) (w : pyst) (i : nat), CoreInv N w -> i < size (p_sd w) -> 1 <= max_motifs cfg -> S (size (fst (expand_one N cfg (p_sd w) i))) < fuel -> exists w' : pyst, p_sd w' = fst (expand_one N cfg (p_sd w) i) /\ CoreInv N w' /\ match snd (expand_one N cfg (p_sd w) i) with | RUnit => py_expand_one_node fuel N cfg pnc w i = CRet w' Datatypes.tt \/ py_expand_one_node fuel N cfg pnc w i = CNext w' Datatypes.tt | RBool b => py_expand_one_node fuel N cfg pnc w i = CRaise w' (RBool b) | RNat k => py_expand_one_node fuel N cfg pnc w i = CRaise w' (RNat k) | RIds l => py_expand_one_node fuel N cfg pnc w i = CRaise w' (RIds l) | RRaised e => py_expand_one_node fuel N cfg pnc w i = CRaise w' (RRaised e) | RFuel => py_expand_one_node fuel N cfg pnc w i = CRaise w' RFuel end.
@@ -50,6 +54,7 @@ Proof. exact expand_block_CacheOK. Qed.
 Theorem C14_aseeds_expansion_keeps_caches_valid : forall (fuel : nat) (N : net) (cfg : config) (d : sd) (sz : option nat) (min_tape : list space) (tape : list (list nat)), 1 <= max_motifs cfg -> SWF N d -> NoStubEdges d -> CacheOK d -> CacheOK (fst (expand_aseeds fuel N cfg d sz min_tape tape)).
 Proof. exact expand_aseeds_CacheOK. Qed.
 
+Print Assumptions C14_source_reclaim_node_data.
 Print Assumptions C14_source_expand_one_node.
 Print Assumptions C14_step_CacheOK.
 Print Assumptions C14_run_CacheOK.
